@@ -587,7 +587,9 @@ func (e *Engine) bindLoopSpecs(f *ssa.Function, spec *FuncSpec) []string {
 				}
 			case strings.HasPrefix(sel, `"`):
 				t, _ := strconv.Unquote(sel)
-				if t != "" && l.Text == strings.Join(strings.Fields(t), " ") {
+				want := strings.Join(strings.Fields(t), " ")
+				// a trailing "..." makes the selector a prefix of the loop header (robust against edits of the tail)
+				if t != "" && (l.Text == want || (strings.HasSuffix(want, "...") && strings.HasPrefix(l.Text, strings.TrimSuffix(want, "...")))) {
 					seenText++
 					if seenText == occ {
 						hit = l
